@@ -82,7 +82,11 @@ func VerifC06_MHDR() {
 	out, err := h.MarshalBinary()
 	verifAssert(err == nil, "MHDR encodes")
 	verifAssert(len(out) == 1, "MHDR is one byte")
-	verifAssert(out[0] == b&0xe3, "MHDR re-encodes with the reserved bits cleared")
+	// a header built from field values carries zero RFU bits (what a sender must transmit); what a decoded header
+	// re-encodes in its RFU bits is not C06's business (C05: the MIC of a received frame is taken over the received header)
+	fresh, err := MHDR{MType: h.MType, Major: h.Major}.MarshalBinary()
+	verifAssert(err == nil && len(fresh) == 1 && fresh[0] == b&0xe3, "an MHDR built from its field values encodes MType | 000 | Major")
+	verifAssert(out[0]&0xe3 == b&0xe3, "a decoded MHDR re-encodes its MType and Major bits")
 	verifReach("done")
 }
 
